@@ -165,6 +165,33 @@ func c10R1b(c *Ctx) {
 			c.verdict(okc, rule, key, c.instrPos(call), "error tested and propagated", "the error of "+short+" can be lost: preparation continues after a failed stage and may accept an invalid workflow", p...)
 		})
 	}
+	// the only error the prepare path tolerates is a duplicate connection: every errors.As in it (directly, or in a helper
+	// such as `isRedundantConnection`) asks for dgraph.ErrConnectionAlreadyExists and nothing else. A refused
+	// self-connection, for one, is the only check for a cycle of length one (dgraph stores no self-edge, so HasCycles
+	// cannot see it)
+	nAs := 0
+	for _, f := range c.sortedFns(s.prepare) {
+		if pkgPathOf(f) != pkgWorkflow {
+			continue
+		}
+		eachInstr(f, func(r instrRef) {
+			cc := callCommon(r.I)
+			if cc == nil || calleeName(cc) != "errors.As" || len(cc.Args) != 2 {
+				return
+			}
+			target := cc.Args[1]
+			if mi, ok := target.(*ssa.MakeInterface); ok {
+				target = mi.X
+			}
+			ts := target.Type().String()
+			if !strings.Contains(ts, "dgraph.") {
+				return // re-wrapping of the engine's own error types, not a tolerated graph error
+			}
+			nAs++
+			okT := strings.Contains(ts, "dgraph.ErrConnectionAlreadyExists")
+			c.verdict(okT, rule, fmt.Sprintf("tolerated-error@%s#%d", c.fnName(f), nAs), c.instrPos(r.I), "only a duplicate connection is tolerated", "the prepare path tolerates an error of type "+ts+": a refused self-connection (the only check for a stage that waits for itself) or a missing node is swallowed, and the workflow is accepted without the edge")
+		})
+	}
 	c.minCount(rule, "fallible calls in the prepare path", n, 40)
 }
 
